@@ -27,7 +27,8 @@ from . import lib
 
 ALPHABET = "0123456789_.eExXoObB+-"
 RULE = ("numbers: every spelling of length 1..L over [0-9_.eExXoObB+-] (L=4 quick with digits 0,1,7,9 at length 4; 5 thorough, all digits), lexed inside "
-        "`{{ s }}` and, for L-1, after `x.`; distinct = the spelling (+ context); non-trivial = the real lexer's first "
+        "`{{ s }}` and, for L-1, after `x.`; every spelling starting with a digit over [01_.e] up to length 7 (9 thorough); "
+        " distinct = the spelling (+ context); non-trivial = the real lexer's first "
         "token is an integer or float token. Plus random integers (all four bases, random underscores, up to 4400 "
         "digits), random floats (repr, exponent and underscore variants), spellings with non-ASCII decimal digits. "
         "strings: code-point lists of length 0..8 drawn from 12 classes (printable, quotes, backslash, C0 controls, "
@@ -669,6 +670,14 @@ def run(ctx):
         alpha = ALPHABET if (n < L or ctx.tier == "thorough") else "0179_.eExXoObB+-"
         sp += ["".join(t) for t in itertools.product(alpha, repeat=n)]
     check_numbers(ctx, R, sp, "", limit)
+    # longer spellings over a small alphabet: placement of (repeated) underscores around the point and the exponent
+    # only shows from length 6 on (1__0.5, 1.0__1, 1e1__0)
+    SMALL = "01_.e"
+    long_sp = []
+    for n in range(L + 1, ctx.size(7, 9) + 1):
+        long_sp += ["".join(t) for t in itertools.product(SMALL, repeat=n) if t[0] in "01"]
+    check_numbers(ctx, R, long_sp, "", limit)
+    ctx.count("num/long-small-alphabet", len(long_sp))
     sp2 = []
     for n in range(1, L):
         sp2 += ["".join(t) for t in itertools.product(ALPHABET, repeat=n)]
